@@ -109,12 +109,13 @@ def run_case(i, rng, tier):
     fired_total = 0
     for path, node in qnodes:
         role = "root" if not path else ("flow" if path[-1] in ("under", "over", "nan") else "value")
-        for mode in ("raise", "wrong", "wrong-np"):
+        for mode in ("raise", "wrong", "wrong-np", "wrong-like"):
             for pat in patterns:
                 fsp = S.set_at(sp, path, dict(node, qf="fault"))
                 h = S.build(fsp)
                 S.FAULT["mode"] = mode
                 S.FAULT["exc"] = rng.choice(S.FAULT_EXCEPTIONS) if mode == "raise" else None
+                S.FAULT["pick"] = rng.randrange(28)
                 if mode == "raise":
                     sets.setdefault("exception_classes", set()).add(S.FAULT["exc"].__name__ if S.FAULT["exc"] else "InjectedFault")
                 survivors = []
@@ -220,7 +221,7 @@ def conclusive(agg):
     out = []
     fk = agg.sets.get("failing_kind", set())
     for k in KINDS:
-        for mode in ("raise", "wrong", "wrong-np"):
+        for mode in ("raise", "wrong", "wrong-np", "wrong-like"):
             if not any(x.startswith("%s:%s:" % (k, mode)) for x in fk):
                 out.append("no fired fault in a %s quantity, mode %s" % (k, mode))
     if len(agg.sets.get("exception_classes", ())) < 15:
